@@ -939,13 +939,13 @@ func (m *Manager) recoverFromWAL() error {
 		}
 	}
 
-	// Add recovered memtables to the pool
+	// Add recovered memtables to the pool in replay order: each call makes the
+	// previously installed table an immutable table of the pool (so reads see
+	// it), and the last one stays active.
 	for i, memTable := range memTables {
-		if i == len(memTables)-1 {
-			// The last memtable becomes the active one
-			m.memTablePool.SetActiveMemTable(memTable)
-		} else {
-			// Previous memtables become immutable
+		m.memTablePool.SetActiveMemTable(memTable)
+		if i < len(memTables)-1 {
+			// Previous memtables become immutable and are queued for flushing
 			memTable.SetImmutable()
 			m.immutableMTs = append(m.immutableMTs, memTable)
 		}
